@@ -197,6 +197,12 @@ Undo(c, t) ==
                /\ res' = [call |-> "undo", out |-> "ok", oids |-> {u.out[j].oid : j \in 1..Len(u.out)}]
   /\ UNCHANGED <<hist, lastTs, clock, maxOid, issued, begun, ltid, packed, obs>>
 
+\* undo of an id that names no transaction (kept apart: the simulated relations only pick existing ids)
+UndoUnknown(c, t) ==
+  /\ IsFile /\ Active(c) /\ t \notin TidsOf(hist)
+  /\ txn' = Fail /\ res' = Out("undo", "UndoError")
+  /\ UNCHANGED <<hist, lastTs, clock, maxOid, issued, begun, ltid, packed, obs>>
+
 \* restore(oid, this-tid, data | None, prev_txn): no consistency checks (copy / recovery path)
 Restore(c, o, d, prev) ==
   /\ IsFile /\ Active(c) /\ Len(txn.staged) < MaxRecs
